@@ -283,7 +283,7 @@ package runtime
 //@ assume oldsame(Stack.Data)
 
 //@ func InitCtx
-//@ props C01 C15
+//@ props C01 C15 C13 C14
 //@ requires script != nil && ctx.Regs.count <= 6
 //@ modifies all(ctx)
 //@ ensures result == ctx && ctx.input == input && ctx.signal == signal && ctx.funcCall == script.FuncCall
@@ -301,7 +301,7 @@ package runtime
 // pool discipline: a task goes back to the pool zeroed - whatever fields Task has (C15)
 //@ extern sync.(*Pool).Put
 //@ modifies nothing
-//@ requires[C15] p == addr(ctxPool) ==> typeis(x, *Task) && x.(*Task) != nil && zeroed(x.(*Task))
+//@ requires[C15,C14] p == addr(ctxPool) ==> typeis(x, *Task) && x.(*Task) != nil && zeroed(x.(*Task))
 
 //@ func GetContext
 //@ props C01 C15
@@ -315,7 +315,7 @@ package runtime
 //@ ensures[C15] forall k string :: !dom(result.stackCur.Data, k)
 
 //@ func PutContext
-//@ props C01 C15
+//@ props C01 C15 C14
 //@ modifies all(ctx)
 
 //@ func (*Task).GetKeyConv2Str
